@@ -307,6 +307,31 @@ func (r *Run) applyContract(fr *Frame, st *State, instr ssa.Instruction, ct *Con
 }
 
 func (r *Run) siteChecks(fr *Frame, st *State, instr ssa.Instruction, callerCt *Contract, name, site string, vars map[string]*Val, isSend bool) {
+	if !isSend {
+		for _, ss := range r.eng.C.Everywhere {
+			if ss.Callee != name {
+				continue
+			}
+			if ss.InPkg != "" && (fr.fn.Pkg == nil || fr.fn.Pkg.Pkg.Name() != ss.InPkg) {
+				if fr.fn.Parent() == nil || fr.fn.Parent().Pkg == nil || fr.fn.Parent().Pkg.Pkg.Name() != ss.InPkg {
+					continue
+				}
+			}
+			se := &Env{r: r, st: st, old: r.entry, fr: fr, vars: map[string]*Val{}, ctx: site}
+			for k, v := range r.varsFor(fr) {
+				se.vars[k] = v
+			}
+			for k, v := range vars {
+				if strings.HasPrefix(k, "$") {
+					se.vars[k] = v
+				}
+			}
+			for _, cl := range ss.Requires {
+				g := r.evalBool(se, cl.Expr)
+				r.emit(st, "site:"+site+"/everywhere:"+cl.Label, "callsite", propsOr(cl.Props, ctProps(r.ct)), g)
+			}
+		}
+	}
 	if callerCt == nil {
 		return
 	}
